@@ -486,7 +486,7 @@ def widen_oracle(b32, r64):
     return None
 
 
-def gen_dat(info, rnd, profile="mixed", maxcells=24, cells=None):
+def gen_dat(info, rnd, profile="mixed", maxcells=24, cells=None, ext_pool=None):
     """content for a stack as the nested `Dat` tuple. profile: mixed | special | random | small | edge | narrowing"""
     ext = None
     order = None
@@ -494,7 +494,7 @@ def gen_dat(info, rnd, profile="mixed", maxcells=24, cells=None):
     for g in info.gen:
         if g[0] == "S":
             _, order, N = g
-            pool = [1, 2, 3, 4, 5, 7, 8] if profile != "edge" else [1, 1, 2]
+            pool = ext_pool or ([1, 2, 3, 4, 5, 7, 8] if profile != "edge" else [1, 1, 2])
             ext = [rnd.choice(pool) for _ in range(N)]
             def count(e):
                 return prod(e) if order == "strided" else pow2ceil(max(e)) ** len(e)
@@ -513,6 +513,8 @@ def gen_dat(info, rnd, profile="mixed", maxcells=24, cells=None):
                     n = rnd.choice([0, 1, n + 1])
             else:
                 n = rnd.choice([0, 1, 2, 3, 5, 8]) if profile != "edge" else rnd.choice([0, 0, 1])
+                if ext_pool:
+                    n = rnd.choice([90, 200, 345, 520])
                 n = min(n, max(0, maxcells // M))
             if cells is not None:
                 vals = cells(n * M)
